@@ -125,10 +125,6 @@ def fast(be):
     return be in (None, 'fastcore')
 
 
-def noedge_sig(be, tp):
-    return 'geodesic_matrix/igraph/no-edges' if (be == 'igraph' and tp.n_edges() == 0) else None
-
-
 # ------------------------------------------------------------------------------------------------
 # Strahler
 # ------------------------------------------------------------------------------------------------
@@ -139,6 +135,24 @@ def effective_ignore(tp, ign, mt):
             if len(tp.twig(l)) < mt:
                 eff.add(l)
     return eff
+
+
+def fastcore_ignore_sig(tp, eff, be):
+    """navis-fastcore (compiled, outside the repo) deviates from the documented `to_ignore` semantics only when
+    an ignored twig does not hang on a non-root fork (it hangs on a root), or when every child branch of
+    a fork is an ignored twig (the fork then gets 0)."""
+    if not fast(be) or not eff:
+        return None
+    leafs = [l for l in eff if l in tp.ch and tp.par[l] >= 0 and not tp.ch[l]]
+    ends = {}
+    for l in leafs:
+        tw = tp.twig(l)
+        if tp.par[tw[-1]] < 0:
+            return 'strahler_index/fastcore/ignored-twigs-keep-index-0'
+        ends.setdefault(tw[-1], set()).add(tw[-2])
+    if any(len(kids) == len(tp.ch[f]) for f, kids in ends.items()):
+        return 'strahler_index/fastcore/ignored-twigs-keep-index-0'
+    return None
 
 
 def case_strahler(ctx, case, be=None):
@@ -168,7 +182,7 @@ def case_strahler(ctx, case, be=None):
         ctx.corr(show_col(impl), model, f'{what} vs recurrence {tag(be)}', case, signature=sig)
         return
     # ignored / too short twigs: nodes of a twig that hangs on a fork take the fork's index
-    sig = 'strahler_index/fastcore/ignored-twigs-keep-index-0' if fast(be) else None
+    sig = fastcore_ignore_sig(tp, eff, be)
     bad = None
     for l in sorted(eff):
         if l not in tp.ch or tp.par.get(l, -1) < 0 or tp.ch[l]:
@@ -186,20 +200,6 @@ def case_strahler(ctx, case, be=None):
 # ------------------------------------------------------------------------------------------------
 # synapse flow centrality
 # ------------------------------------------------------------------------------------------------
-def sfc_signature(be, tp, cn, diff):
-    """Known deviations of the pure-Python path, by input class *and* the set of deviating nodes."""
-    if fast(be) or not diff:
-        return None
-    cnodes = {c[0] for c in cn}
-    froots = {r for r in tp.forking_roots() if r not in cnodes}
-    if set(diff) <= froots:
-        return 'synapse_flow_centrality/python/forking-root-inherits-first-segment'
-    trees = {tp.root_of(c[0]) for c in cn}
-    if len(trees) > 1:
-        return 'synapse_flow_centrality/python/forest-counts-pairs-across-trees'
-    return None
-
-
 def case_sfc(ctx, case, be=None):
     rows, cn, mode = case['rows'], case['connectors'], case['mode']
     tp = Topo(rows)
@@ -212,19 +212,16 @@ def case_sfc(ctx, case, be=None):
         navis.synapse_flow_centrality(x, mode=mode)
         impl = col(x, 'synapse_flow_centrality')
     except Exception as e:
-        ctx.oracle(False, f'{what} raised {type(e).__name__}: {str(e)[:100]} {tag(be)}', case, signature=noedge_sig(be, tp))
+        ctx.oracle(False, f'{what} raised {type(e).__name__}: {str(e)[:100]} {tag(be)}', case)
         return
     ctx.count('sfc', f'{mode} {case.get("ckind")} {be or "default"}')
     if len(tp.roots) > 1:
         ctx.count('sfc_forest', be or 'default')
     model = ctx.ask(f'c17.sfc {mode} 1 | {pre} | {post} | {wire}')
-    mcol = parse_col(model)
-    diff = [i for i in sorted(impl) if impl[i] is None or str(int(impl[i])) != mcol[i]]
-    sig = sfc_signature(be, tp, cn, diff)
     ok = ctx.ask(f'c17.sfcok {mode} | {pre} | {post} | {wire} | {show_col(impl)}')
     ctx.oracle(ok == '1', f'{what}: value differs from the number of post→pre tree paths through the node in the mode\'s direction '
-               f'(forks: largest child): {ok} {tag(be)}', case, signature=sig)
-    ctx.corr(show_col(impl), model, f'{what} vs (total−distal)·distal formula with fork-max rule {tag(be)}', case, signature=sig)
+               f'(forks: largest child): {ok} {tag(be)}', case)
+    ctx.corr(show_col(impl), model, f'{what} vs (total−distal)·distal formula with fork-max rule {tag(be)}', case)
 
 
 # ------------------------------------------------------------------------------------------------
@@ -240,12 +237,11 @@ def case_flowc(ctx, case, be=None):
         navis.flow_centrality(x)
         impl = col(x, 'flow_centrality')
     except Exception as e:
-        sig = noedge_sig(be, tp) or ('flow_centrality/no-leafs/raises' if not tp.leafs else None)
-        ctx.oracle(False, f'{what} raised {type(e).__name__}: {str(e)[:100]} {tag(be)}', case, signature=sig)
+        ctx.oracle(False, f'{what} raised {type(e).__name__}: {str(e)[:100]} {tag(be)}', case)
         return
     ctx.count('flowc', be or 'default')
-    # as written (global leaf total; branch points only; terminal twigs 0; forking roots: any child's value)
-    model = parse_col(ctx.ask(f'c17.fc 0 | {wire}'))
+    # as written (leaf totals per tree; branch points only; terminal twigs 0; forking roots: any child's value)
+    model = parse_col(ctx.ask(f'c17.fc 1 | {wire}'))
     bad = [i for i in sorted(impl) if (str(int(impl[i])) not in model[i].split('/') if impl[i] is not None else True)]
     ctx.corr('' if not bad else f'{bad[0]}={impl[bad[0]]}', '' if not bad else f'{bad[0]}={model[bad[0]]}',
              f'{what} vs the code\'s own scheme (branch points (L−d)·d, segments inherit their distal seed, forks = max child) {tag(be)}', case)
@@ -258,12 +254,7 @@ def case_flowc(ctx, case, be=None):
     spec = parse_col(ctx.ask(f'c17.tips {wire}'))
     diff = [i for i in sorted(impl) if not tp.is_fork(i) and tp.par[i] >= 0 and str(int(impl[i] or 0)) != spec[i]]
     if diff:
-        if all(tp.on_terminal_twig(i) for i in diff):
-            sig = 'flow_centrality/terminal-twig/zero-instead-of-tip-count'
-        elif len({tp.root_of(l) for l in tp.leafs}) > 1:
-            sig = 'flow_centrality/forest/counts-tip-pairs-across-trees'
-        else:
-            sig = None
+        sig = 'flow_centrality/terminal-twig/zero-instead-of-tip-count' if all(tp.on_terminal_twig(i) for i in diff) else None
         i = diff[0]
         ctx.oracle(False, f'{what}: node {i} has {impl[i]}, but {spec[i]} tip-to-tip paths run through it towards the root {tag(be)}', case, signature=sig)
     else:
@@ -286,17 +277,11 @@ def case_bend(ctx, case, be=None):
         navis.bending_flow(x)
         impl = col(x, 'bending_flow')
     except Exception as e:
-        sig = noedge_sig(be, tp)
-        if isinstance(e, ValueError) and 'parse connector types' in str(e) and len(kinds) == 1:
-            sig = 'bending_flow/one-connector-kind/ValueError'
-        ctx.oracle(False, f'{what} raised {type(e).__name__}: {str(e)[:100]} {tag(be)}', case, signature=sig)
+        ctx.oracle(False, f'{what} raised {type(e).__name__}: {str(e)[:100]} {tag(be)} (connector kinds: {sorted(kinds)})', case)
         return
     ctx.count('bend', f'{case.get("ckind")} {be or "default"}')
-    isolated = [r for r in tp.roots if not tp.ch[r]]
     nan = [i for i in impl if impl[i] is None]
-    if nan:
-        ctx.oracle(False, f'{what}: NaN at node {nan[0]} (no path bends there: expected 0) {tag(be)}', case,
-                   signature='bending_flow/isolated-node/NaN' if set(nan) <= set(isolated) else None)
+    ctx.oracle(not nan, f'{what}: NaN at node {nan and nan[0]} (no path bends there: expected 0) {tag(be)}', case)
     impl0 = {i: (0 if v is None else v) for i, v in impl.items()}
     model = ctx.ask(f'c17.bend {pre} | {post} | {wire}')
     ctx.corr(show_col(impl0), model, f'{what} vs Σ distal_post[left]·distal_pre[right] over ordered pairs of child branches {tag(be)}', case)
@@ -350,10 +335,7 @@ def case_arborseg(ctx, case, be=None):
         navis.arbor_segregation_index(x)
         impl = col(x, 'segregation_index')
     except Exception as e:
-        sig = noedge_sig(be, tp)
-        if isinstance(e, ValueError) and 'parse connector types' in str(e) and len(kinds) == 1:
-            sig = 'arbor_segregation_index/one-connector-kind/ValueError'
-        ctx.oracle(False, f'{what} raised {type(e).__name__}: {str(e)[:100]} {tag(be)}', case, signature=sig)
+        ctx.oracle(False, f'{what} raised {type(e).__name__}: {str(e)[:100]} {tag(be)} (connector kinds: {sorted(kinds)})', case)
         return
     ctx.count('arborseg', f'{case.get("ckind")} {be or "default"}')
     vals = [v for v in impl.values() if v is not None]
@@ -435,9 +417,7 @@ def case_sa(ctx, case, be=None):
     try:
         sa = navis.segment_analysis(G.to_neuron(rows))
     except Exception as e:
-        sig = 'segment_analysis/readonly-assignment' if 'read-only' in str(e) else None
-        ctx.oracle(False, f'segment_analysis raised {type(e).__name__}: {str(e)[:100]} {tag(be)}', case, signature=sig)
-        ctx.count('sa', 'raised')
+        ctx.oracle(False, f'segment_analysis raised {type(e).__name__}: {str(e)[:100]} {tag(be)}', case)
         return
     ctx.count('sa', 'returned')
     ctx.oracle(float(sa.length.sum()) == cable, f'segment_analysis: per-segment lengths sum to {sa.length.sum()}, cable length is {cable} {tag(be)}', case)
